@@ -54,6 +54,48 @@ func TestC04(t *testing.T) {
 	if len(idSeen) < 2 {
 		r.Violation(map[string]string{"kind": "quic_grease_id_constant"}, "GetGREASEID never varied", nil)
 	}
+	// the id a GREASE parameter puts on the wire when the caller asks for a particular one:
+	// every value below 2^17 and sampled larger ones as IdOverride, judged by the harness' own
+	// rule (31*N+27 below 2^62), not by the library's IsGREASEID
+	isGrease := func(id uint64) bool { return id >= 27 && (id-27)%31 == 0 && id < 1<<62 }
+	sweep := func(ov uint64) {
+		tp := &tls.GREASETransportParameter{IdOverride: ov, Length: 3}
+		var body []byte
+		pn, pv := recoverPanic(func() { body = tls.TransportParameters{tp}.Marshal() })
+		if pn {
+			if ov >= 1<<62 {
+				return // not encodable: the varint refuses it (C24)
+			}
+			r.Violation(map[string]string{"kind": "tp_grease_override_panic"}, fmt.Sprintf("IdOverride %d: Marshal panicked: %v", ov, pv), ov)
+			return
+		}
+		parsed, err := wire.ParseTransportParameters(body)
+		if err != nil || len(parsed) != 1 {
+			r.Violation(map[string]string{"kind": "tp_marshal_unparseable"}, fmt.Sprintf("IdOverride %d: marshalled parameter does not parse: %v", ov, err), mon.Hex(body))
+			return
+		}
+		if !isGrease(parsed[0].ID) {
+			r.Violation(map[string]string{"kind": "tp_grease_id_on_wire", "source": "IdOverride"}, fmt.Sprintf("GREASE transport parameter with IdOverride %d is sent with id %d, which is not 31*N+27", ov, parsed[0].ID), mon.Hex(body))
+		}
+		if isGrease(ov) && parsed[0].ID != ov {
+			r.Violation(map[string]string{"kind": "tp_grease_override_ignored"}, fmt.Sprintf("IdOverride %d is a reserved id but %d was sent", ov, parsed[0].ID), mon.Hex(body))
+		}
+		if g.IsGREASEID(ov) != isGrease(ov) && ov < 1<<62 {
+			r.Violation(map[string]string{"kind": "quic_IsGREASEID_disagrees"}, fmt.Sprintf("IsGREASEID(%d)=%v, the rule 31*N+27 says %v", ov, g.IsGREASEID(ov), isGrease(ov)), ov)
+		}
+		r.Count("grease_id_overrides_checked", 1)
+	}
+	for ov := uint64(0); ov < uint64(mon.Pick(1<<14, 1<<20)); ov++ {
+		sweep(ov)
+	}
+	for i := 0; i < mon.Pick(2000, 200000); i++ {
+		rg := Sub("C04ov", i)
+		ov := rg.Uint64() >> uint(rg.Intn(64))
+		if rg.Intn(2) == 0 {
+			ov = ov/31*31 + 27 // near / on the reserved lattice
+		}
+		sweep(ov)
+	}
 	var vi tls.VersionInformation
 	verSeen := map[uint32]bool{}
 	bad := 0
